@@ -39,6 +39,10 @@ def goenv():
     e = dict(os.environ)
     e["GOFLAGS"] = "-mod=mod"
     e["GOPROXY"] = "off"
+    if ALT:
+        # scratch trees get their own build cache under run/alt-<hash>/ (removed with it): the shared cache would
+        # otherwise keep a full copy of the compiled repository per tried change
+        e["GOCACHE"] = os.path.join(RUN, "gocache")
     e.pop("GOTOOLCHAIN", None)   # this repository needs the cached go1.25 toolchain (auto switch)
     e.pop("GOSUMDB", None)
     return e
